@@ -1269,6 +1269,17 @@ class FortranFile:
                 word_range = find_word_in_line(line.lower(), find_word_lower)
                 if word_range.start >= 0:
                     line_no += i + 1
+                    # The leading continuation mark of a free form line has
+                    # been removed from the text that was searched
+                    if not self.fixed:
+                        cont_match = FRegex.FREE_CONT.match(
+                            self.get_line(line_no, pp_content)
+                        )
+                        if cont_match:
+                            word_range = Range(
+                                word_range.start + cont_match.end(0),
+                                word_range.end + cont_match.end(0),
+                            )
                     return line_no, word_range
         return line_no, word_range
 
